@@ -22,7 +22,8 @@
     - offsets fit uint32, a block has at most 255 rows (byte row offset).
 
     Exchange format (run_C04):
-      case kind 0:  (0 emitUnchanged T1 T2)    T = (pknames columns rows)
+      case kind 0:  (0 flags T1 T2)    T = (pknames columns rows); flags bit 0 = emitUnchanged
+                    (bit 1 = "both tables in one object store", meaningful to the harness only)
                     pknames, columns = lists of byte strings; rows = ((key rowid) ...) in table
                     order, key = list of byte strings; the table's blocks are the 255-row chunks.
           observation: (status events)  status 0 ok / 2 panic;
@@ -32,7 +33,11 @@
       case kind 1:  (1 idx1 idx2)  two table indices (lists of keys)
           observation: for every off1 < |idx1| the list over prevEnd = 0..|idx2| of
                     (start end) = findOverlappingBlocks(idx1, idx2, off1, prevEnd);
-                    a negative number z is written as the node (|z|). *)
+                    a negative number z is written as the node (|z|).
+      case kind 2:  (2 mode T1 T2)   `wrgl diff --no-gui` (mode = how the CLI is driven, harness only)
+      case kind 3:  (3 flags T1 T2)  DiffTables consumed through RowListReader / RowChangeReader
+          observation of kinds 2 and 3: (status events), events without offsets:
+                    (0 key row) | (1 key row oldrow) | (2 key oldrow), in emission order. *)
 From W.lib Require Import Tree Bytes.
 From Coq Require Import Arith ZArith.
 
@@ -279,8 +284,21 @@ Definition t_Z (z : Z) : tree :=
   if (z <? 0)%Z then Node [Leaf (Z.to_N (- z))] else Leaf (Z.to_N z).
 
 Definition run_diff (c : tree) : tree :=
-  match diff_tables 255 (d_bool (d_nth 1 c)) (d_tbl (d_nth 2 c)) (d_tbl (d_nth 3 c)) with
+  match diff_tables 255 (N.odd (d_N (d_nth 1 c))) (d_tbl (d_nth 2 c)) (d_tbl (d_nth 3 c)) with
   | Ok evs => Node [Leaf 0; t_list t_dev evs]
+  | Panic => Node [Leaf 2; Node []]
+  end.
+
+(* events as seen through consumers that show row contents, not offsets *)
+Definition t_dev_noff (d : dev) : tree :=
+  match d with
+  | Added k r _ => Node [Leaf 0; t_key k; Leaf r]
+  | Modified k r _ r' _ => Node [Leaf 1; t_key k; Leaf r; Leaf r']
+  | Removed k r' _ => Node [Leaf 2; t_key k; Leaf r']
+  end.
+Definition run_proj (emitUnchanged : bool) (c : tree) : tree :=
+  match diff_tables 255 emitUnchanged (d_tbl (d_nth 2 c)) (d_tbl (d_nth 3 c)) with
+  | Ok evs => Node [Leaf 0; t_list t_dev_noff evs]
   | Panic => Node [Leaf 2; Node []]
   end.
 
@@ -294,6 +312,8 @@ Definition run_windows (c : tree) : tree :=
 
 Definition run_C04 (c : tree) : tree :=
   match N.to_nat (d_N (d_nth 0 c)) with
-  | O => run_diff c
-  | _ => run_windows c
+  | 0%nat => run_diff c
+  | 1%nat => run_windows c
+  | 2%nat => run_proj false c
+  | _ => run_proj (N.odd (d_N (d_nth 1 c))) c
   end.
